@@ -198,6 +198,8 @@ const (
 type Violation struct {
 	Kind   string
 	Detail string
+	// Reordered: the Events handed over are exactly the required ones, in another order
+	Reordered bool
 	// Losses: kinds of tracked drops that explain every missing event (C01 only; empty = unexplained)
 	Losses []string
 }
@@ -1065,8 +1067,21 @@ func (w *world) checkC01() []Violation {
 		if ok {
 			continue
 		}
+		// is it the right multiset of Events in the wrong order?
+		reordered := false
+		for k2 := 0; k2 <= len(evs) && !reordered; k2++ {
+			a, b := append([]string{}, filtered(k2)...), append([]string{}, d...)
+			if strings.Join(a, ",") == strings.Join(b, ",") {
+				continue // the same sequence: the mismatch lies elsewhere (a loss)
+			}
+			sort.Strings(a)
+			sort.Strings(b)
+			if len(a) > 1 && strings.Join(a, ",") == strings.Join(b, ",") {
+				reordered = true
+			}
+		}
 		// explain: are all missing events covered by tracked drops?
-		v := Violation{Kind: KLost, Detail: fmt.Sprintf("object %s: Synchronization view shows %q (present=%v), changes delivered to the informer afterwards/around it %v (initial list %v), Events handed over %v: no cut of the history makes view+Events reproduce the changes in order", key, x, inView, describe(c, evs), seq[0], d)}
+		v := Violation{Reordered: reordered, Kind: KLost, Detail: fmt.Sprintf("object %s: Synchronization view shows %q (present=%v), changes delivered to the informer afterwards/around it %v (initial list %v), Events handed over %v: no cut of the history makes view+Events reproduce the changes in order", key, x, inView, describe(c, evs), seq[0], d)}
 		kinds := map[string]bool{}
 		for kind, es := range w.drops {
 			for _, e := range es {
